@@ -117,7 +117,7 @@ def run(tier):
             for name, o in (('sax2', dict(api='sax2', nspfx=0)), ('sax2p', dict(api='sax2', nspfx=1)), ('sax2-dg', dict(api='sax2', scanner='DG')),
                             ('dom', dict(api='dom', lookups=1, lkp=','.join(g['lkp']), lku='|'.join(g['lku']))),
                             ('domls', dict(api='domls'))):
-                cases.append(core.Case(base + '.' + name, 'parse', dict(o, ns=1)).doc(g['bytes']))
+                cases.append(core.Case(base + '.' + name, 'parse', dict(o, ns=1), ents=g['ents']).doc(g['bytes']))
                 info[base + '.' + name] = ('wf', i, name)
             if not g['doc']['doctype']:
                 for name, o in (('sax2-wf', dict(api='sax2', scanner='WF')), ('sax2-sg', dict(api='sax2', scanner='SG')), ('dom-sg', dict(api='dom', scanner='SG'))):
@@ -136,7 +136,7 @@ def run(tier):
                 r.shuffle(cfgs)
                 for name, o in cfgs[:3]:
                     k = base + '.m.' + opn + '.' + name
-                    cases.append(core.Case(k, 'parse', dict(o, ns=1, dump=0)).doc(m['bytes']))
+                    cases.append(core.Case(k, 'parse', dict(o, ns=1, dump=0), ents=g['ents']).doc(m['bytes']))
                     info[k] = ('mut', i, name, opn, m)
         recs = core.run_cases(binary, cases, tag='c06')
         for c in cases:
